@@ -157,6 +157,42 @@ def apply_perm(doc: dict, perm: dict | None) -> dict:
     return d
 
 
+def yaml_native_dates(doc: Any) -> Any:
+    import datetime
+
+    n = [0]
+
+    def conv(fmt: Any, v: Any) -> Any:
+        if not isinstance(v, str):
+            return v
+        try:
+            if fmt == "date":
+                return datetime.date.fromisoformat(v)
+            if fmt == "date-time":
+                n[0] += 1
+                dt = datetime.datetime.fromisoformat(v.replace("Z", "+00:00"))
+                return dt.replace(tzinfo=None) if n[0] % 2 else dt  # every other one WITHOUT an offset (a naive datetime)
+        except ValueError:
+            pass
+        return v
+
+    def walk(x: Any) -> Any:
+        if isinstance(x, dict):
+            y = {k: walk(v) for k, v in x.items()}
+            if x.get("format") in ("date", "date-time"):
+                for k in ("default", "example"):
+                    if k in y:
+                        y[k] = conv(x["format"], y[k])
+                if "default" not in y and "example" not in y and x.get("type") == "string":
+                    y["example"] = conv(x["format"], "2021-03-04" if x["format"] == "date" else "2021-03-04T05:06:07")
+            return y
+        if isinstance(x, list):
+            return [walk(v) for v in x]
+        return x
+
+    return walk(doc)
+
+
 def has_nonascii_names(x: Any) -> bool:
     """does the document spell a NAME (map key, parameter / operation / schema name, title, tag) with non-ASCII characters?
     Such names become module FILE names, which an interpreter whose file-system encoding is ASCII cannot create at all."""
@@ -223,7 +259,9 @@ def build_cells(seed: int, doc: dict, hashseeds: list[int], with_hooks: bool, ot
             cells.append({"id": f"ruff{i}", "kind": "ruff", "h": h, **skew(), "history": [], "hooks": "ruff", "perm": None})
         for i, h in enumerate(hh):
             cells.append({"id": f"noruff{i}", "kind": "noruff", "h": h, **skew(), "history": [], "hooks": "ruff-absent", "perm": None})
+    ser = r.choice(["json", "json", "json", "yaml", "yaml-native", "yaml-native"])  # one serialisation per document: every cell reads the same bytes
     for c in cells:
+        c["ser"] = ser
         c["penv"] = penv_of.get(c["h"], {})  # process-level locale / UTF-8 mode of the interpreter that owns this hash seed
     return cells
 
@@ -262,9 +300,19 @@ def gen_cell(args: dict, sandbox: str) -> dict:
         last = n == len(seq) - 1
         if last:
             d = apply_perm(d, cell.get("perm"))
-        dp = os.path.join(sandbox, f"doc{n}.json")
-        with open(dp, "w") as f:
-            json.dump(d, f)
+        ser = cell.get("ser") or "json"
+        if ser == "json":
+            dp = os.path.join(sandbox, f"doc{n}.json")
+            with open(dp, "w") as f:
+                json.dump(d, f)
+        else:
+            # the same document as YAML; "yaml-native" spells date / date-time defaults and examples as NATIVE YAML scalars
+            # (unquoted 2020-02-03 04:05:06, with and without an offset): the loader hands them over as date / datetime objects
+            from sim import faults
+
+            dp = os.path.join(sandbox, f"doc{n}.yaml")
+            with open(dp, "wb") as f:
+                f.write(faults.dumps(yaml_native_dates(d) if ser == "yaml-native" else d, "yaml"))
         if cell.get("mtime_days") is not None:
             t = 1_600_000_000 + 86_400 * int(cell["mtime_days"]) + 3_600 * n
             os.utime(dp, (t, t))
